@@ -214,6 +214,43 @@ def build (rule : MeanRule) : Hist → Option SDs
     | none => none
     | some s => storeFeature rule false none (sel mask s.data)
 
+/-! ### mapped basins (`feat_basin.BasinProxyFeature`) -/
+
+/-- `origin[map]` — numpy integer-array indexing (`feat_obj[:][basinmap]`).  Every index of a
+stored `basinmap` feature is valid (`mapOk`); repeated indices ("blown indexing") and omitted ones
+are allowed. -/
+def gather (origin : List Val) (map : List Nat) : List Val :=
+  map.map (fun i => origin.getD i nan)
+
+/-- numpy raises `IndexError` when this is false -/
+def mapOk (n : Nat) (map : List Nat) : Bool := map.all (fun i => decide (i < n))
+
+/-- a `BasinProxyFeature`: the basin's feature object (an HDF5 dataset with its stored summaries),
+the mapping array and the lazily filled cache of the mapped values (`_cache`) -/
+structure Proxy where
+  origin : SDs
+  map : List Nat
+  cache : Option (List Val)
+
+/-- `BasinProxyFeature.__array__` for a scalar feature: `feat_obj[:][basinmap]`, cached -/
+def proxyArray (p : Proxy) : Proxy × List Val :=
+  let a := p.cache.getD (gather p.origin.data p.map)
+  ({ p with cache := some a }, a)
+
+/-- summaries of a mapped-basin feature computed from the mapped values (what `np.nanmin(f)` …
+and a `ChildScalar` on top of the proxy do, and what a `min()/max()/mean()` of the proxy has to
+return) -/
+def proxyReport (p : Proxy) : Summ := truth (proxyArray p).2
+
+/-- the tempting shortcut (seeded change C20-10): a mapping as long as the basin "merely
+reorders" its events, so the basin feature's own (stored) summaries are handed out -/
+def proxyReportShortcut (p : Proxy) : Summ :=
+  if p.map.length = p.origin.data.length then report p.origin else proxyReport p
+
+/-- a hierarchy child on top of a dataset whose feature is a mapped-basin proxy:
+`hparent[feat][hparent.filter.all]` = boolean selection of the mapped values -/
+def proxyChildReport (p : Proxy) (mask : List Bool) : Summ := truth (sel mask (proxyArray p).2)
+
 /-! ### hierarchy child -/
 
 /-- state of a hierarchy child w.r.t. one scalar feature: the filter of the parent, and the
